@@ -33,7 +33,8 @@ THEOREMS['C08'] += ['FB.Conc.P1.claim_unique', 'FB.Conc.P1.executed_at_most_once
 THEOREMS['C04'] = ['FB.C04_exists_iff', 'FB.C04_not_both', 'FB.C04_listDir_iff', 'FB.C04_listDir_errors',
                    'FB.C04_hidden', 'FB.C04_visible_elsewhere', 'FB.BuildDirs.run_inv', 'FB.BuildDirs.handleDirExists_inv',
                    'FB.BuildDirs.started_inv', 'FB.BuildDirs.error_inv', 'FB.BuildDirs.isRemoved_inv']
-THEOREMS['C02'] = ['FB.C02_rolledBack_frame', 'FB.C02_rolledBack_files', 'FB.C02_spec_build_raises']
+THEOREMS['C02'] = ['FB.C02_rolledBack_frame', 'FB.C02_rolledBack_files', 'FB.C02_spec_build_raises', 'FB.Backups.restoreAll_spec',
+                   'FB.Backups.restoreOne_self', 'FB.Backups.restoreOne_other', 'FB.Backups.backUp_file']
 THEOREMS['C14'] = ['FB.C14_fault_surfaces', 'FB.C02_spec_build_raises', 'FB.C02_rolledBack_files']
 THEOREMS['C03'] = ['FB.C03_impl_build', 'FB.C03_impl_buildGo', 'FB.C03_impl_run_frame', 'FB.replayOp_frame', 'FB.C03_run_frame',
                    'FB.C12_preClean_frame', 'FB.C02_rolledBack_files', 'FB.C12_impl_clean_is_preClean']
@@ -321,7 +322,9 @@ def check_C01(tier):
     return run_hist_prop('C01', tier, 1, 700, 40000,
                          extra_cases=lambda t, ds: gen.gen_scenario_cases(core.seed() * 31 + 101, budget(t, 130, 1200), ds, [gen.scen_identity]))
 def check_C02(tier):
-    return run_hist_prop('C02', tier, 2, 700, 40000, p_fail=0.5, families=gen.SCENARIOS + [gen.scen_cache_subdir])
+    from . import bkcheck
+    return run_hist_prop('C02', tier, 2, 700, 40000, p_fail=0.5, families=gen.SCENARIOS + [gen.scen_cache_subdir],
+                         unit_tie=('FB.Backups (restoreAll_spec, backUp_file) describes file_backups.py', bkcheck.run))
 def check_C03(tier):
     return run_hist_prop('C03', tier, 3, 700, 40000, p_fail=0.3, p_clean=0.2, families=gen.SCENARIOS + [gen.scen_cache_subdir])
 def check_C04(tier):
